@@ -168,5 +168,42 @@ func extractGenTypes(out string) {
 		l.strList("forEach", flowTokens(mustFunc(f, file, "MetaObject", "ForEachMethodAndSignal"), "m", nil,
 			[]string{"registerName", "Title", "Ints", "methodCall", "signalCall", "propertyCall"}))
 	}
+	{
+		// the methods a specialized proxy has without any IDL method: those of bus.ObjectProxy
+		// (with the embedded object.Object) and the two the generator declares itself
+		ifaceMethods := func(file, name string) []string {
+			f := load(file)
+			var out []string
+			for _, d := range f.Decls {
+				gd, ok := d.(*ast.GenDecl)
+				if !ok {
+					continue
+				}
+				for _, sp := range gd.Specs {
+					ts, ok := sp.(*ast.TypeSpec)
+					if !ok || ts.Name.Name != name {
+						continue
+					}
+					it, ok := ts.Type.(*ast.InterfaceType)
+					if !ok {
+						continue
+					}
+					for _, m := range it.Methods.List {
+						if len(m.Names) == 1 {
+							out = append(out, m.Names[0].Name)
+						} else {
+							out = append(out, "embed "+src(m.Type))
+						}
+					}
+				}
+			}
+			if len(out) == 0 {
+				fail("%s: interface %s not found", file, name)
+			}
+			return out
+		}
+		l.strList("objectProxyMethods", ifaceMethods("bus/object_stub_gen.go", "ObjectProxy"))
+		l.strList("objectMethods", ifaceMethods("type/object/object.go", "Object"))
+	}
 	l.write(out, "GenTypes.lean")
 }
